@@ -13,6 +13,7 @@ use std::panic::{AssertUnwindSafe, catch_unwind};
 use verif_harness::{Rng, arg};
 
 include!("colls_extras.inc.rs");
+include!("colls_parts.inc.rs");
 
 thread_local! {
     static DROPS: RefCell<Vec<u32>> = const { RefCell::new(Vec::new()) };
@@ -751,6 +752,17 @@ fn main() {
     if !input_file.is_empty() {
         for l in std::fs::read_to_string(&input_file).expect("cannot read --input").lines() {
             if let Some((kind, input, op, ans, dp)) = parse_case(l) { run_case(&mut w, &kind, &input, &op, &ans, &dp); }
+            else if let Some(rest) = l.strip_prefix("C bx ") {
+                // dividing / merging owned slices: re-run the recorded operation on as many elements
+                let fields: Vec<&str> = rest.split(';').collect();
+                let head: Vec<&str> = std::iter::once("bx").chain(fields[0].split(' ')).collect();
+                let n = fields.iter().find_map(|f| f.strip_prefix("in=")).map_or(0, |v| if v.is_empty() { 0 } else { v.split(',').count() });
+                let ans: Vec<u8> = fields.iter().find_map(|f| f.strip_prefix("ans=")).map_or(vec![], |v| v.bytes().collect());
+                if let Some((notes, clines)) = partsx::parts_replay(&head, n, &ans) {
+                    for c in clines { writeln!(w, "{c}").unwrap(); }
+                    for m in notes { writeln!(w, "X colls parts case :: {m}").unwrap(); }
+                }
+            }
         }
         return;
     }
@@ -768,6 +780,11 @@ fn main() {
         }
         if case % 10 == 7 {
             for m in parts_probe(&mut r) { writeln!(w, "X colls parts probe :: {m}").unwrap(); }
+        }
+        if case % 5 == 4 {
+            let (notes, clines) = partsx::parts_lines(&mut r);
+            for c in clines { writeln!(w, "{c}").unwrap(); }
+            for m in notes { writeln!(w, "X colls parts case :: {m}").unwrap(); }
         }
         if case % 10 == 5 {
             let (notes, cline) = extras_probe(&mut r);
